@@ -160,6 +160,22 @@ func runC14(c *Ctx) {
 			} else if err != nil || !sameKey(back, k) {
 				rep.Violation("C14/PrivateKeyPem/round-trip/"+k.cls+"/pw="+pw.cls, fmt.Sprintf("err=%v", err), w(map[string]interface{}{"pem": string(pemB), "password": mon.Hex(pw.p)}))
 			}
+			// reading is repeatable: the same file with the same password a second and third time (and after a wrong-password
+			// attempt in between) gives the same key — memoised derivations, scrubbed buffers and pooled scratch must not show
+			for again := 0; again < 3 && err == nil; again++ {
+				if again == 2 {
+					mon.Guard(func() { gx509.ReadPrivateKeyFromPem(pemB, append(append([]byte{}, pw.p...), 'x')) })
+				}
+				var b2 *sm2.PrivateKey
+				var e2 error
+				if pi := mon.Guard(func() { b2, e2 = gx509.ReadPrivateKeyFromPem(pemB, pw.p) }); pi != nil {
+					rep.Violation("C14/ReadPrivateKeyFromPem/panic/"+pi.Func, "repeated read: "+pi.Value, w(map[string]interface{}{"pem": string(pemB)}))
+					break
+				} else if e2 != nil || !sameKey(b2, k) {
+					rep.Violation("C14/ReadPrivateKeyFromPem/repeated-read-of-the-same-file-differs/pw="+pw.cls, fmt.Sprintf("read #%d: err=%v", again+2, e2), w(map[string]interface{}{"pem": string(pemB), "password": mon.Hex(pw.p)}))
+					break
+				}
+			}
 			blk, _ := pem.Decode(pemB)
 			if blk == nil {
 				rep.Violation("C14/WritePrivateKeyToPem/not-PEM", "", w(nil))
